@@ -12,10 +12,10 @@ import json
 import os
 import re
 from vpc.core import cN, cstr, clist, copt, cbool
-from props.C17 import peer_id, good_addr, rand_component, cproto, refresh_lock, pipeline_retry
+from props.C17 import peer_id, good_addr, rand_component, cproto, refresh_lock, pipeline_retry, ref_craft
 
 IMPORTS = "Require Import V.model.Parsers V.model.BootCache."
-THEOREMS = ["sync_counters_bounded", "sync_wrapping_refuted", "log_head_slice_refuted", "ctor_paths_agree", "flush_then_load", "late_override_refuted", "constants_c18", "bounded_after_cleanup", "bounded_without_sync", "sync_breaks_bound_refuted",
+THEOREMS = ["write_is_atomic_replace", "cache_write_then_read", "cache_write_empty_wipes", "write_skip_empty_refuted", "sync_counters_bounded", "sync_wrapping_refuted", "log_head_slice_refuted", "ctor_paths_agree", "flush_then_load", "late_override_refuted", "constants_c18", "bounded_after_cleanup", "bounded_without_sync", "sync_breaks_bound_refuted",
             "load_bounded", "flush_with_cleanup_bounded", "craft_wellformed", "craft_fixpoint", "wellformed",
             "foreign_file_unvalidated_refuted", "keys_unique", "cleanup_postcondition", "cleanup_evicts_oldest",
             "cleanup_fixpoint", "sync_loses_nothing", "flush_merges", "save_load", "save_load_clean",
@@ -23,7 +23,7 @@ THEOREMS = ["sync_counters_bounded", "sync_wrapping_refuted", "log_head_slice_re
 RULE = ("data histories: 12-40 steps over 3 CacheData slots, 4-8 peers with 2-5 addresses each, limits "
         "max_peers in {1,2,3,5}, max_addrs in {1,2,3}, last_seen constructed around now / the expiry boundary / "
         "the future with ties, counters 0,1,2,2^31,2^32-2,2^32-1; store histories: 10-30 steps mixing additions "
-        "(raw multiaddresses with extra protocols, unparsable text), status updates, removals, clean-ups, foreign / "
+        "(raw multiaddresses with extra protocols, relayed forms naming a second peer behind /p2p-circuit, unparsable text), status updates, removals, clean-ups, foreign / "
         "valid / corrupt cache files written underneath (incl. long ones, so that the next flush is a shrinking rewrite of the "
         "same path), flushes with and without clean-up, loads, sleeps; "
         "merge histories: a file entry with counters at 0, 1, 2, 2^15, 2^16, 2^31 and u32::MAX-{0,1,2} neighbours x the same peer "
@@ -33,6 +33,8 @@ RULE = ("data histories: 12-40 steps over 3 CacheData slots, 4-8 peers with 2-5 
         "constructors: BootstrapCacheStore::new and new_from_peers_args with every combination of config given / default, "
         "bootstrap_cache_dir, first, local (and both values of the two flags it ignores), a distinct cache file present at each "
         "candidate location, then add / flush / reload through an identically constructed store; "
+        "first-flush races: the cache file ABSENT at the start, 2 threads + 1-2 processes each flushing 300-700 peers once while a "
+        "reader spins on load and a raw parse, 6-60 fresh paths; "
         "concurrent: 4-8 threads + 2-3 processes x 15-40 flushes with a reader; a case is distinct/non-trivial by "
         "(kind, limits, multiset of step kinds, whether an eviction / expiry / merge / corrupt file occurred)")
 ASSUMPTIONS = [
@@ -152,7 +154,10 @@ def gen_store_history(rng, deep):
             if q < 0.25:      # raw address with extra protocols around the crafted ones
                 junk = [rand_component(rng, p)[0] for _ in range(rng.choice([1, 2]))]
                 t = t + "".join(j for j in junk if not j.startswith(("/ip4", "/udp", "/tcp", "/p2p/", "/quic-v1", "/ws", "/x-parity-ws")))
-            elif q < 0.33:
+            elif q < 0.45:      # relayed forms: the socket belongs to the first peer, a second one is named behind it
+                other = rng.choice(pool.peers)[0] if rng.random() < 0.5 else peer_id(rng)[0]
+                t = t + rng.choice(["/p2p-circuit/p2p/" + other, "/p2p-circuit", "/p2p/" + other])
+            elif q < 0.5:
                 t = rng.choice(["/ip4/1.2.3.4/udp/9", "/dns/foo.example/udp/1/p2p/" + p[0], "garbage", "", "/p2p/" + p[0],
                                 "/ip4/1.2.3.4/p2p/" + p[0]])
             steps.append({"k": "add", "addr": t})
@@ -323,6 +328,9 @@ def gen(ctx):
                  {"threads": 4, "procs": 3, "rounds": 60, "per_round": 8, "max_peers": 200}]
     for c in conc:
         cases.append(dict(c, op="concurrent", kind="concurrent"))
+    # the FIRST flush: the file is absent, writers flush large stores while a reader spins on load
+    cases.append({"op": "first_flush_race", "kind": "first-flush", "trials": 12 if quick else 60, "peers": 300, "procs": 1})
+    cases.append({"op": "first_flush_race", "kind": "first-flush", "trials": 6 if quick else 30, "peers": 700, "procs": 2})
     return cases
 
 
@@ -362,6 +370,14 @@ def oracle(c, o):
     if "panic" in o:
         return [("panic", "%s case panicked: %s" % (c.get("kind"), o["panic"]))]
     v = []
+    if c["op"] == "first_flush_race":
+        if o["parse_failures"] or o["raw_bad"]:
+            v.append(("torn-file", "first flush onto an absent file: %d of %d loads during the race failed to parse (%s), %d raw reads were "
+                      "not a complete JSON document; 'not found' was reported %d times" % (
+                          o["parse_failures"], o["loads"], o["first_failure"], o["raw_bad"], o["not_found"])))
+        if o["flush_failed"] or o["final_bad"]:
+            v.append(("flush-failed", "%d first flushes failed, %d files did not load afterwards" % (o["flush_failed"], o["final_bad"])))
+        return v
     if c["op"] == "concurrent":
         r = o["reader"]
         if r["load_failures"] or r["raw_bad"]:
@@ -454,6 +470,23 @@ def oracle(c, o):
             if k in ("add", "cleanup") or True:
                 # from a bounded store only a merge leads out of the bound; the store never merges in place
                 check_bound(cfg, store, where, v)
+        if k == "add" and ADDR_CACHE.get(st["addr"]) and cfg["expiry_secs"] >= 60:
+            # the owner of a cached socket address is the peer id that FOLLOWS the transport part of the input (the first
+            # /p2p/), also when the input names a second peer behind it (relayed: .../p2p/RELAY/p2p-circuit/p2p/TARGET)
+            parsed = ADDR_CACHE[st["addr"]]
+            ids = [p[1] for p in parsed if p[0] == "p2p"]
+            want = ref_craft(parsed, False)
+            if want is not None:
+                owner = ids[0]
+                held = {(p["peer"], json.dumps(a["protos"])) for p in store for a in p["addrs"]}
+                before = {(p["peer"], json.dumps(a["protos"])) for p in mem for a in p["addrs"]}
+                wrong = [(pe, pr) for (pe, pr) in held - before if json.loads(pr)[:-1] == want[:-1] and (pe != owner or json.loads(pr) != want)]
+                room = sum(1 for p in mem if p["peer"] == owner for _ in p["addrs"]) < cfg["max_addrs"] and \
+                    (len(mem) < cfg["max_peers"] or any(p["peer"] == owner for p in mem))
+                if wrong or ((owner, json.dumps(want)) not in held and room):
+                    v.append(("address-owner", "%s: add_addr(%s) did not cache the socket under the peer that owns it (%s…)%s" % (
+                        where, st["addr"], owner[-12:],
+                        "; it was cached under %s… (the peer named behind the relay)" % wrong[0][0][-12:] if wrong else "")))
         if k == "cleanup":
             check_post(cfg, store, now_rel, where, v)
         if k == "flush":
@@ -678,6 +711,8 @@ def show(c, o):
 def nontrivial(c, o):
     if c["op"] == "concurrent":
         return ("concurrent", c["threads"], c["procs"], c["max_peers"])
+    if c["op"] == "first_flush_race":
+        return ("first-flush", c["peers"], c["procs"])
     if c["op"] == "ctor":
         return ("ctor", c["ctor"], c["config"], c["custom_dir"], c["first"], c["local"])
     ks = sorted(s["k"] + str(s.get("fkind", "")) + str(s.get("cleanup", "")) for s in c["steps"])
@@ -702,6 +737,8 @@ def run(ctx):
     ctx.prove("props/C18.v", THEOREMS, extra_trusted=[
         "model coq/model/BootCache.v (+ craft in model/Parsers.v), hand-written, tied to cache_store.rs / lib.rs / config.rs "
         "by this run's lock-step correspondence on operation histories",
+        "translator fact boot_write_atomic_only (write() reaches the disk only through AtomicWriteFile open..commit, no direct "
+        "create/write, no early return), pinned by write_is_atomic_replace",
         "translator tools/extract_consts.py: MAX_PEERS, MAX_ADDRS_PER_PEER, ADDR_EXPIRY_DURATION re-read from config.rs "
         "(constants_c18 pins them; every other theorem is parametric in the limits)",
         "premises stated in the theorems: JSON codec round trip (save_load), rename atomicity and private temporary files "
